@@ -18,7 +18,7 @@ if ! git merge --no-edit w$N; then
 fi
 echo "== repo: cherry-picking w$N commits"
 cd /repo
-for c in $(git log --reverse --format=%H main..w$N); do
+for c in $(git log --no-merges --reverse --format=%H main..w$N); do
   subj=$(git log -1 --format=%s $c)
   if git log main --format=%s | grep -qxF "$subj"; then echo "skip (already on main): $subj"; continue; fi
   echo "pick: $subj"
